@@ -534,7 +534,9 @@ where
             child_idx <= self.children.len(),
             "checkpoint no longer valid after reverting to an earlier checkpoint"
         );
-        if let Some(&(_, first_child)) = self.parents.last() {
+        // Nodes started after the checkpoint are about to be discarded, so only the innermost node that
+        // survives the revert has to point "behind" the checkpoint in the list of children.
+        if let Some(&(_, first_child)) = self.parents[..parent_idx].last() {
             assert!(
                 child_idx >= first_child,
                 "checkpoint no longer valid, was an unmatched start_node_at called?"
